@@ -37,7 +37,7 @@ CHECKEMPTYENUM == TRUE   \* an enum without cases is an error (`repr(int)` needs
 (* named deviation (C05/C10): FALSE = what the code does: of several impl blocks of one type only the last *)
 (* counts, and an impl block that names no type of its module is dropped silently; TRUE = the repaired     *)
 (* behaviour: the functions of all blocks count, in source order; an orphan block is an error              *)
-CHECKIMPLS == FALSE
+CHECKIMPLS == TRUE
 
 ResNone == [k |-> "none"]
 NoVftRes == [has |-> FALSE, funcs |-> <<>>, baseField |-> "", ty |-> TNone]
